@@ -8,6 +8,7 @@
         the helper ceremonies expanded ([*_follows_source_order]). *)
 From Coq Require Import String.
 From PK Require Import Auth.U2f Auth.gen.Skeleton.
+From PK Require Export Auth.OrderList.
 Open Scope string_scope.
 Open Scope list_scope.
 
@@ -287,18 +288,6 @@ Example get_assertion_full_run_is_the_skeleton :
 Proof. split; [vm_compute; reflexivity|eexists; vm_compute; reflexivity]. Qed.
 
 (** *** order facts of the source text itself (recomputed from the generated lists on every run) *)
-Fixpoint first_pos (s : string) (l : list string) : option nat :=
-  match l with
-  | [] => None
-  | x :: r => if x =? s then Some 0%nat else option_map S (first_pos s r)
-  end.
-(** the first mention of [a] comes before the first mention of [b] *)
-Definition before (a b : string) (l : list string) : bool :=
-  match first_pos a l, first_pos b l with
-  | Some i, Some j => Nat.ltb i j
-  | _, _ => false
-  end.
-
 Theorem source_consent_precedes_effects :
   (* registration: user check, then exclude lookup, then key material, then the save *)
   before "CheckUser" "Find" SRC_MAKE_CREDENTIAL = true
